@@ -65,10 +65,11 @@ theorem C10_parallel_divides_by_zero (o d p0 p1 p2 : Vec3 ℝ)
 /-- for a point of the triangle's plane, `pt = p0 + s (p2 - p0) + t (p1 - p0)`, the computed
     barycentric pair is exactly `(s, t)` and the flag is raised iff the point is inside
     (edges through `p0` included, the edge `p1 p2` excluded) -/
-theorem C10_flag_iff_inside (p0 p1 p2 : Vec3 ℝ) (hnd : triangleCross p0 p1 p2 ≠ ⟨0, 0, 0⟩) (s t : ℝ) :
-    baryUV (p0 + Vec3.smul s (p2 - p0) + Vec3.smul t (p1 - p0)) p0 p1 p2 = (s, t) ∧
-    (isOnTriangle (p0 + Vec3.smul s (p2 - p0) + Vec3.smul t (p1 - p0)) p0 p1 p2 = true
-      ↔ 0 ≤ s ∧ 0 ≤ t ∧ s + t < 1) := by
+theorem C10_flag_iff_inside (p0 p1 p2 pt : Vec3 ℝ) (hnd : triangleCross p0 p1 p2 ≠ ⟨0, 0, 0⟩) (s t : ℝ)
+    (hpt : pt = p0 + Vec3.smul s (p2 - p0) + Vec3.smul t (p1 - p0)) :
+    baryUV pt p0 p1 p2 = (s, t) ∧
+    (isOnTriangle pt p0 p1 p2 = true ↔ 0 ≤ s ∧ 0 ≤ t ∧ s + t < 1) := by
+  subst hpt
   have h := baryUV_of_combination p0 p1 p2 hnd s t
   refine ⟨h, ?_⟩
   simp only [isOnTriangle, h, Bool.and_eq_true, decide_eq_true_eq, and_assoc]
